@@ -121,7 +121,7 @@ pub fn check(c: &Case) -> Outcome {
     let evs = if c.with_event { vec![EvSpec { g: Ev::Affine { a: vec![1.0; n], bt: 0.0, c: 3.0 }, dir: 0, terminal: None }] } else { vec![] };
     let mut instr = Instr::new(&rhs, &evs);
     instr.dir = d;
-    instr.budget = 2_000_000;
+    instr.budget = std::env::var("VF_C04_BUDGET").ok().and_then(|v| v.parse().ok()).unwrap_or(2_000_000);
     instr.fault = c.fault.as_ref().map(|f| match f {
         Fault::From { at, v } => Fault::From { at: sp.x0 + at * (sp.xend - sp.x0), v: *v },
         Fault::CompFrom { at, i, v } => Fault::CompFrom { at: sp.x0 + at * (sp.xend - sp.x0), i: *i, v: *v },
@@ -151,7 +151,8 @@ pub fn check(c: &Case) -> Outcome {
         }
         RunResult::Panic(m) => return Outcome::viol(format!("{}: solve_ivp panicked: {}", name, m)),
         RunResult::Budget => {
-            return Outcome::viol(format!(
+            let key = if boundary_creep(c, &rhs, &evs, &opts, &y0) { "C04-boundary-creep" } else { "" };
+            return Outcome::viol_key(key, format!(
                 "{}: solve_ivp did not return within 2,000,000 right-hand-side evaluations (unbounded work; rtol={:e}, max_steps={:?}, fault={:?})",
                 name, c.rtol, c.max_steps, instr.fault
             ))
@@ -183,12 +184,67 @@ pub fn check(c: &Case) -> Outcome {
             }
         }
     }
+    if std::env::var_os("VF_C04_BUDGET").is_some() {
+        eprintln!("C04-DEBUG status {:?} nfev {} nstep {} naccpt {} nrejct {} last t {:?} samples {}", sol.status, sol.nfev, sol.nstep, sol.naccpt, sol.nrejct, sol.t.last(), sol.t.len());
+        let k = sol.t.len();
+        eprintln!("last times {:?}", &sol.t[k.saturating_sub(6)..]);
+    }
     let nontrivial = log.nonfinite_returned || sol.status != Status::Success || sol.nrejct > 0;
     Outcome::pass(
         format!("{}:{}:{}", name, status_name(sol.status), match &c.patho { Patho::Pow { .. } | Patho::Tan { .. } | Patho::Exp { .. } => "blowup", Patho::Stiff { .. } => "stiff", Patho::Benign(_) => "fault", _ => "discont" }),
         nontrivial,
         json!({"status": status_name(sol.status), "rhs_evals": log.ode_calls + log.ode_calls_in_jac, "nonfinite_rhs": log.nonfinite_returned, "samples": sol.t.len()}),
     )
+}
+
+/// Diagnosis of a non-terminating run (finding K3, DESIGN section 5.2): the right-hand side is non-finite
+/// on a *state-dependent* region (|y| > theta), the explicit solver has crept up to that boundary until
+/// the state is within an ulp of it, and from then on steps so short that y + h*f == y are accepted
+/// (error estimate zero, the state does not move, only t advances by ~1e-16) while every longer step
+/// enters the region and is rejected.  Signature, checked on the same run with a budget of 4000 steps:
+/// NeedLargerNMax; over the last 200 accepted steps the max-norm of the state is bit-identical (the component at the boundary is pinned) and no component moves by more than 1e-9; each step is shorter than
+/// 1e-9 of the span; at least a third of all steps were rejected.
+fn boundary_creep(c: &Case, rhs: &dyn Rhs, evs: &[EvSpec], opts: &RunOpts, y0: &[f64]) -> bool {
+    if !matches!(c.fault, Some(Fault::NormAbove { .. })) {
+        return false;
+    }
+    let sp = &c.span;
+    let mut counter = evs.to_vec();
+    counter.insert(0, EvSpec { g: Ev::Const { v: 1.0 }, dir: 0, terminal: None });
+    let mut instr = Instr::new(rhs, &counter);
+    instr.dir = sp.dir();
+    instr.budget = 2_000_000;
+    instr.rec_ev = true;
+    instr.fault = c.fault.clone();
+    let mut o = opts.clone();
+    o.max_steps = Some(4000);
+    let sol = match solve(&instr, sp.x0, sp.xend, y0, &o) {
+        RunResult::Ok(s) => s,
+        _ => return false,
+    };
+    let log = instr.take_log();
+    if std::env::var_os("VF_C04_BUDGET").is_some() {
+        eprintln!("creep-diag: status {:?} nstep {} nrejct {} ev_calls {}", sol.status, sol.nstep, sol.nrejct, log.ev_t.len());
+    }
+    if sol.status != Status::NeedLargerNMax || sol.nrejct * 3 < sol.nstep {
+        return false;
+    }
+    // accepted step ends = event-hook calls that set a new record in the direction of integration
+    let idx = step_end_calls(&log.ev_t, sp.dir());
+    if idx.len() < 300 {
+        return false;
+    }
+    let tail = &idx[idx.len() - 200..];
+    let ylast = &log.ev_y[*tail.last().unwrap()];
+    // the component that carries the max-norm is pinned at the boundary (bit-identical norm over the last 200
+    // accepted steps) and the others as good as stand still
+    let yfirst = &log.ev_y[tail[0]];
+    let pinned = tail.iter().all(|&k| inf_norm(&log.ev_y[k]).to_bits() == inf_norm(ylast).to_bits());
+    let still = pinned && yfirst.iter().zip(ylast).all(|(a, b)| (a - b).abs() <= 1e-9 * (1.0 + a.abs()));
+    if std::env::var_os("VF_C04_BUDGET").is_some() {
+        eprintln!("creep-diag: still={} y {:?} -> {:?} t {:e} -> {:e}", still, yfirst, ylast, log.ev_t[tail[0]], log.ev_t[*tail.last().unwrap()]);
+    }
+    still && tail.windows(2).all(|w| (log.ev_t[w[1]] - log.ev_t[w[0]]).abs() < 1e-9 * sp.len())
 }
 
 pub fn strategy() -> BoxedStrategy<Case> {
